@@ -267,6 +267,35 @@ def addToClaim (claimVersion : Nat) (skip : Bool) (kind : Man → RedactionKind)
       | .error e => .error e
       | .ok a => .ok (cur', a)
 
+/-! ### resource lookup of `add_to_claim` -/
+
+/-- a resource store: identifier ↦ content (identifiers are unique per store only: every ingredient
+created from a stream keeps its manifest under `manifest_data.c2pa` in its OWN store) -/
+abbrev RStore (α : Type) := List (String × α)
+
+def rget {α : Type} : RStore α → String → Option α
+  | [], _ => none
+  | (k, v) :: rest, id => if k = id then some v else rget rest id
+
+/-- the `get_resource` closure of `Ingredient::add_to_claim`: the ingredient's own resource store
+first, then the Builder's ("for Builder model, ingredient resources may be in the manifest") -/
+def getResource {α : Type} (own builder : RStore α) (id : String) : Option α :=
+  match rget own id with
+  | some r => some r
+  | none => rget builder id
+
+/-- `add_to_claim` of an ingredient whose manifest data is referenced by identifier: the data is
+resolved through `getResource` (a reference that resolves nowhere is `Error::NotFound`) -/
+def addToClaimRef (claimVersion : Nat) (skip : Bool) (kind : Man → RedactionKind) (cur : MStore)
+    (i : IngRec) (dataId : Option String) (own builder : RStore MStore) :
+    Except Err (MStore × IngAssertion) :=
+  match dataId with
+  | none => addToClaim claimVersion skip kind cur { i with data := none }
+  | some id =>
+    match getResource own builder id with
+    | none => .error .notFound
+    | some s => addToClaim claimVersion skip kind cur { i with data := some s }
+
 /-! ### the parent's read: which logged statuses are reported -/
 
 /-- `ValidationResults::from_store`: `active` = label of the store's provenance claim, `captured` =
@@ -362,6 +391,21 @@ def handle (toks : List String) : String :=
       let items := s.map fun m => labelStr m.label ++ ":" ++ m.content
       let items := if field rest "sorted" == "1" then (items.toArray.qsort (· < ·)).toList else items
       "ok " ++ ",".intercalate items
+  | "mix" :: rest =>
+    -- a builder mixing ingredient sources: per ingredient `id/own` (identifier of its manifest data
+    -- and the asset whose manifest its own store holds under it, `-` = not in its own store), and
+    -- the Builder's store `id/asset,…`; the answer: whose manifest each ingredient carries
+    let pairs (t : String) : RStore String :=
+      (splitList (if t == "-" then "" else t) ",").filterMap fun x =>
+        match x.splitOn "/" with
+        | [k, v] => some (k, v)
+        | _ => none
+    let builder := pairs (field rest "builder")
+    let carried := (splitList (field rest "ings") ",").map fun x =>
+      match x.splitOn "/" with
+      | [id, own] => (getResource (if own == "-" then [] else [(id, own)]) builder id).getD "none"
+      | _ => "bad"
+    "carry " ++ ",".intercalate carried
   | "fromstore" :: rest =>
     let a := field rest "active"
     let rep := fromStore (if a == "-" then none else some a) (parseStatuses (field rest "captured"))
